@@ -150,6 +150,7 @@ class ParserAlignedPacket(object):
             # unpack and add the amount unpacked to the running total
             bufferparsed += block.unpack(buf[bufferparsed:])
             self.parserblocks.append(block)
+        self.numberofblocks = len(self.parserblocks)
         return True
 
     def pack(self):
